@@ -133,15 +133,15 @@ def runChecker (c : CheckerCase) : Json :=
     if !dnf && total then
       match ck.pre.getLast? with
       | some g => match firstFalsy c.async o kw g with
-        | some fc => match errorOf o fc with
+        | some fc => match errorOf o kw fc with
           | some e => raisedJson e
           | none => Json.null
         | none => Json.null
       | none => Json.null
     else Json.null
-  let falsyErr : Bool := (allPre ++ ck.posts).any (fun c => match errorOf o c with | some e => !e.truthy | none => false)
+  let falsyErr : Bool := (allPre ++ ck.posts).any (fun c => match errorOf o kw c with | some e => !e.truthy | none => false)
   let capTotal : Bool := ck.snaps.all (captureTotal c.async o kw)
-  let errNotTotal : Bool := allPre.any (fun c => (errorOf o c).isNone)
+  let errNotTotal : Bool := allPre.any (fun c => (errorOf o kw c).isNone)
   Json.mkObj [
     ("trace", jArr (r.trace.map eventJson)),
     ("out", outJson r.out),
